@@ -2437,6 +2437,169 @@ theorem progressing_term_core (w : World) (r : StepResult) (h : reconcileCore w 
         · exact leafNs _ _ _ _ _ h rfl
         · exact leafNs _ _ _ _ _ h rfl
 
+/-- the phase `calculateRolloutStatus` computes for a Progressing rollout that is neither deleted nor disabled is not
+    Terminating and not Disabling -/
+theorem cs_phase_alive (ro ns : Rollout) (wl : Option WL) (h : calculateStatus ro wl = some ns)
+    (hph : ro.phase = .progressing) (hdel : ro.deleting = false) (hdis : ro.disabled = false) :
+    ns.phase ≠ .terminating ∧ ns.phase ≠ .disabling := by
+  have e1 : csInitial (csDisable ro) = ro := by
+    unfold csDisable; rw [if_neg (by simp [hdis])]
+    unfold csInitial; rw [if_neg (by simp [hph])]
+  unfold calculateStatus at h
+  rw [if_neg (by simp [hdel])] at h
+  dsimp only at h
+  rw [e1] at h
+  split at h
+  · rw [if_pos (by simp [hdis])] at h
+    cases h; exact ⟨by simp, by simp⟩
+  · rename_i wl0
+    split at h
+    · cases h
+    · cases h
+      have e3 : (csObserve ro wl0).phase = .progressing := by
+        unfold csObserve
+        split
+        · split <;> exact hph
+        · exact hph
+      have e4 : csPhase ro (csObserve ro wl0) wl0 = csObserve ro wl0 := by
+        unfold csPhase; rw [e3]
+      rw [e4, e3]; exact ⟨by simp, by simp⟩
+
+theorem inRolling_phase (w : World) (old ns : Rollout) (s : Sub) (wl : WL) (r : StepResult)
+    (h : inRolling w old ns s wl = .val r) : r.w.ro.phase = ns.phase := by
+  unfold inRolling at h
+  dsimp only at h
+  repeat' split at h
+  all_goals first
+    | (cases h; done)
+    | (cases h; rfl)
+
+theorem finalise_phase (w w' : World) (ns : Rollout) (wl : Option WL) (reason : Reason) (wr done err : Bool) (ws : List String)
+    (h : finalise w ns wl reason wr = some (w', done, err, ws)) : w'.ro.phase = ns.phase := by
+  unfold finalise at h
+  split at h
+  · injection h with h; simp only [Prod.mk.injEq] at h; obtain ⟨hw, _⟩ := h; subst hw; rfl
+  · split at h
+    · dsimp only at h
+      split at h
+      · cases h
+      · injection h with h; simp only [Prod.mk.injEq] at h; obtain ⟨hw, _⟩ := h; subst hw; rfl
+    · split at h
+      · split at h
+        · cases h
+        · injection h with h; simp only [Prod.mk.injEq] at h; obtain ⟨hw, _⟩ := h; subst hw; rfl
+      · split at h
+        · cases h
+        · injection h with h; simp only [Prod.mk.injEq] at h; obtain ⟨hw, _⟩ := h; subst hw; rfl
+
+/-- a reconcile of a Progressing rollout that is neither being deleted nor disabled does not leave it Terminating or Disabling -/
+theorem alive_stays_core (w : World) (r : StepResult) (h : reconcileCore w = .val r) (hph : w.ro.phase = .progressing)
+    (hdel : w.ro.deleting = false) (hdis : w.ro.disabled = false) :
+    r.w.ro.phase ≠ .terminating ∧ r.w.ro.phase ≠ .disabling := by
+  have hfr := hf_frame w.ro
+  have e_phase : (handleFinalizer w.ro).1.phase = w.ro.phase := by rw [hfr]
+  have e_del : (handleFinalizer w.ro).1.deleting = w.ro.deleting := by rw [hfr]
+  have e_dis : (handleFinalizer w.ro).1.disabled = w.ro.disabled := by rw [hfr]
+  have hro1 : (handleFinalizer w.ro).1.phase ≠ .terminating ∧ (handleFinalizer w.ro).1.phase ≠ .disabling := by
+    rw [e_phase, hph]; exact ⟨by simp, by simp⟩
+  unfold reconcileCore at h
+  dsimp only at h
+  split at h
+  · cases h; exact hro1
+  · rename_i ns hcs
+    have hns := cs_phase_alive _ ns w.wl hcs (e_phase.trans hph) (e_del.trans hdel) (e_dis.trans hdis)
+    have leafNs : ∀ (ro' : Rollout) (w0 : World) (rq e : Bool) (ws : List String),
+        Out.val { w := { w0 with ro := ro' }, roGone := (handleFinalizer w.ro).2.1, requeue := rq, err := e, writes := ws } = Out.val r →
+        (ro'.phase = ns.phase ∨ ro'.phase = .healthy) → r.w.ro.phase ≠ .terminating ∧ r.w.ro.phase ≠ .disabling := by
+      intro ro' w0 rq e ws hh h2
+      cases hh
+      rcases h2 with h2 | h2
+      · dsimp only; rw [h2]; exact hns
+      · dsimp only; rw [h2]; exact ⟨by simp, by simp⟩
+    have leafRo1 : ∀ (w0 : World) (rq e : Bool) (ws : List String),
+        Out.val { w := { w0 with ro := (handleFinalizer w.ro).1 }, roGone := (handleFinalizer w.ro).2.1, requeue := rq, err := e, writes := ws } = Out.val r →
+        r.w.ro.phase ≠ .terminating ∧ r.w.ro.phase ≠ .disabling := by
+      intro w0 rq e ws hh
+      cases hh
+      exact hro1
+    have finBranch : ∀ (wl : Option WL) (reason : Reason) (wr : Bool) (upd : Rollout → Rollout),
+        (∀ x, (upd x).phase = x.phase) →
+        (match finalise w ns wl reason wr with
+         | none => Out.panic
+         | some (w', done, err, ws) =>
+           if err then .val { w := { w' with ro := (handleFinalizer w.ro).1 }, roGone := (handleFinalizer w.ro).2.1, requeue := false, err := true,
+                              writes := (handleFinalizer w.ro).2.2 ++ ws }
+           else if done then .val { w := { w' with ro := upd w'.ro }, roGone := (handleFinalizer w.ro).2.1, requeue := false, err := false,
+                                    writes := (handleFinalizer w.ro).2.2 ++ ws }
+           else .val { w := w', roGone := (handleFinalizer w.ro).2.1, requeue := true, err := false, writes := (handleFinalizer w.ro).2.2 ++ ws }) = Out.val r →
+        r.w.ro.phase ≠ .terminating ∧ r.w.ro.phase ≠ .disabling := by
+      intro wl reason wr upd hupd hh
+      split at hh
+      · cases hh
+      · rename_i w' done err ws hfz
+        have f2 := finalise_phase _ _ _ _ _ _ _ _ _ hfz
+        split at hh
+        · exact leafRo1 _ _ _ _ hh
+        · split at hh
+          · cases hh
+            dsimp only; rw [hupd, f2]; exact hns
+          · cases hh
+            rw [f2]; exact hns
+    rw [hph] at h
+    dsimp only at h
+    split at h
+    · exact leafNs _ _ _ _ _ h (Or.inl rfl)
+    · rename_i wl hwl
+      split at h
+      · exact leafNs _ _ _ _ _ h (Or.inl rfl)
+      · split at h
+        · cases h
+        · -- initializing
+          split at h
+          · cases h
+          · split at h
+            · exact leafRo1 _ _ _ _ h
+            · split at h
+              · exact leafNs _ _ _ _ _ h (Or.inl rfl)
+              · exact leafNs _ _ _ _ _ h (Or.inl rfl)
+        · -- inRolling
+          split at h
+          · split at h
+            · cases h
+            · split at h
+              · exact leafNs _ _ _ _ _ h (Or.inl rfl)
+              · cases h
+          · split at h
+            · cases h
+            · rename_i r0 hir
+              have i2 := inRolling_phase _ _ _ _ _ _ hir
+              split at h
+              · exact leafRo1 _ _ _ _ h
+              · cases h
+                dsimp only; rw [i2]; exact hns
+        · exact finBranch (some wl) .success true (fun x => { x with reason := .completed, succeeded := some true })
+            (fun x => rfl) h
+        · split at h
+          · exact leafNs _ _ _ _ _ h (Or.inl rfl)
+          · exact leafNs _ _ _ _ _ h (Or.inl rfl)
+        · exact finBranch (some wl) .rollback false (fun x => { x with reason := .completed, succeeded := some false })
+            (fun x => rfl) h
+        · exact leafNs _ _ _ _ _ h (Or.inr rfl)
+        · exact leafNs _ _ _ _ _ h (Or.inl rfl)
+
+/-- **the reset concerns deletion and disabling only**: for a rollout that is neither being deleted nor disabled the whole
+    reconcile is the body -/
+theorem reconcile_eq_core_of_alive (w : World) (hdel : w.ro.deleting = false) (hdis : w.ro.disabled = false) :
+    reconcile w = reconcileCore w := by
+  by_cases hph : w.ro.phase = .progressing
+  · rw [reconcile_def]
+    cases hc : reconcileCore w with
+    | panic => rfl
+    | val r0 =>
+      obtain ⟨h1, h2⟩ := alive_stays_core w r0 hc hph hdel hdis
+      simp only [Out.map]; rw [resetOnExit_of_stays w r0 h1 h2]
+  · exact reconcile_eq_core_of_phase w hph
+
 /-! ### the whole reconcile: body + cursor reset (fix "cursor reset")
 
 `reconcile w = (reconcileCore w).map (resetOnExit w)`: after the switch on the old phase and before the status is written,
